@@ -553,6 +553,22 @@ theorem resolveRules_adds_groups (vfs : Vfs) (who : Who) (href : Str) (target sh
 computes (after the last @import / after a leading comment / at the top) amount to "kept @imports first" -/
 theorem adding_in_order_is_hoisting (c : List Rule) : run [] c = hoist c := run_nil_eq_hoist c
 
+/-- `resolveImports(sheet, target)` with a target that holds rules already: for every target of the shape
+rules-without-@import ++ @imports ++ rules-without-@import in which the next @import goes right behind the @imports
+(`Shape`; every sheet made by `resolveImports` has it, and so has e.g. a sheet with one leading comment), adding the
+groups puts the kept @imports behind the @imports of the target and everything else at the end, each in their order -/
+theorem adding_to_a_target_is_hoisting (pre K post c : List Rule) (s : Shape pre K post) :
+    run (pre ++ K ++ post) c = pre ++ (K ++ c.filter isImp) ++ (post ++ c.filter (fun r => !isImp r)) :=
+  run_shape c pre K post s
+
+/-- non-vacuity: a target that holds a comment, an @import and a style rule has the shape -/
+example : Shape [.comment []] [.imp [] [] false [] []] [.style [] []] :=
+  ⟨by simp [isImp], by simp [isImp], by simp [isImp], by simp [impIndex, afterLast, isImp], by simp⟩
+
+/-- flattening into the result of an earlier flattening is hoisting the concatenated groups -/
+theorem flattening_into_a_flattened_sheet (c d : List Rule) : run (hoist c) d = hoist (c ++ d) := by
+  rw [← run_nil_eq_hoist, ← run_append, run_nil_eq_hoist]
+
 /-- the specification of the last round is the special case without kept imports: on a tree described by `Flat`
 the groups are the flattened sheet, nothing is hoisted and nothing fetched — so `resolveImports_flat_partial` is an
 instance of `resolveImports_flat_kept_partial` -/
